@@ -1,15 +1,55 @@
 package main
 
-// stage_ts.go — the TypeScript backend as a staged program (string shapes + a small tokenizer).
+// stage_ts.go — the TypeScript backend as a staged program. No TypeScript front end is installed, so the
+// rendered text is handled by a small tokenizer and a statement parser for the subset the generator emits
+// (functions, classes, if/else, while, switch/case, let/var/const, assignments, calls, return, break).
+// Rules on it are token-level: weaker than the Go-side rules, and said so wherever they are used.
+
+import (
+	"fmt"
+	"go/types"
+	"strings"
+)
 
 type TSStaged struct {
-	Eval *ShapeEval
-	Errs []string
+	Eval  *ShapeEval
+	Errs  []string
+	Src   string // rendered file (k = 2)
+	Toks  []tsTok
+	LexEr string
+	Funcs map[string]*tsFunc
+	Order []string // names of written fields, in order
+}
+
+type tsTok struct {
+	kind string // ident num str punct
+	text string
+	pos  int
+	nl   bool // a newline precedes this token
+}
+
+type tsFunc struct {
+	Name   string
+	Params []tsTok
+	Body   []*tsStmt
+	Toks   []tsTok // body tokens
+	ParseE string
+}
+
+type tsStmt struct {
+	Kind  string // if while block let assign return break expr switch case continue
+	Cond  []tsTok
+	Then  []*tsStmt
+	Else  []*tsStmt
+	Name  string
+	Op    string
+	Expr  []tsTok
+	Cases []*tsStmt // for switch: Kind case, Cond = label tokens, Then = body
 }
 
 func buildTSStaged(c *Ctx) *TSStaged {
 	entry := c.Func("Builder", "", "TsGenFromString")
-	ts := &TSStaged{}
+	ts := &TSStaged{Funcs: map[string]*tsFunc{}}
 	if entry == nil {
 		ts.Errs = append(ts.Errs, "Builder.TsGenFromString not found")
 		return ts
@@ -17,7 +57,616 @@ func buildTSStaged(c *Ctx) *TSStaged {
 	ts.Eval = newShapeEval(c, map[string]bool{})
 	ts.Eval.EvalEntry(entry)
 	ts.Errs = append(ts.Errs, ts.Eval.errs...)
+	// render in write order
+	r := &renderer{c: c, k: 2}
+	r.ts = true
+	var b strings.Builder
+	for _, fv := range ts.Eval.writes {
+		ts.Order = append(ts.Order, fv.Name())
+		if sh, ok := ts.Eval.fields[fv]; ok {
+			b.WriteString(r.render(sh))
+		}
+	}
+	for _, e := range r.errs {
+		ts.Errs = append(ts.Errs, "render: "+e)
+	}
+	ts.Src = b.String()
+	var err error
+	ts.Toks, err = tsLex(ts.Src)
+	if err != nil {
+		ts.LexEr = err.Error()
+		return ts
+	}
+	ts.findFuncs()
 	return ts
 }
 
-func c05Staged(c *Ctx, r *Report) {}
+func tsLex(src string) ([]tsTok, error) {
+	var toks []tsTok
+	i := 0
+	nl := false
+	n := len(src)
+	isIdStart := func(b byte) bool {
+		return b == '_' || b == '$' || (b >= 'a' && b <= 'z') || (b >= 'A' && b <= 'Z')
+	}
+	isDigit := func(b byte) bool { return b >= '0' && b <= '9' }
+	for i < n {
+		ch := src[i]
+		switch {
+		case ch == '\n':
+			nl = true
+			i++
+		case ch == ' ' || ch == '\t' || ch == '\r':
+			i++
+		case ch == '/' && i+1 < n && src[i+1] == '/':
+			for i < n && src[i] != '\n' {
+				i++
+			}
+		case ch == '/' && i+1 < n && src[i+1] == '*':
+			j := strings.Index(src[i+2:], "*/")
+			if j < 0 {
+				return toks, fmt.Errorf("unterminated /* comment at offset %d", i)
+			}
+			if strings.Contains(src[i:i+2+j], "\n") {
+				nl = true
+			}
+			i += 2 + j + 2
+		case ch == '"' || ch == '\'' || ch == '`':
+			j := i + 1
+			for j < n && src[j] != ch {
+				if src[j] == '\\' {
+					j++
+				}
+				if src[j] == '\n' && ch != '`' {
+					return toks, fmt.Errorf("unterminated string at offset %d", i)
+				}
+				j++
+			}
+			if j >= n {
+				return toks, fmt.Errorf("unterminated string at offset %d", i)
+			}
+			toks = append(toks, tsTok{"str", src[i : j+1], i, nl})
+			nl = false
+			i = j + 1
+		case isIdStart(ch):
+			j := i
+			for j < n && (isIdStart(src[j]) || isDigit(src[j])) {
+				j++
+			}
+			toks = append(toks, tsTok{"ident", src[i:j], i, nl})
+			nl = false
+			i = j
+		case isDigit(ch):
+			j := i
+			for j < n && (isDigit(src[j]) || src[j] == '.') {
+				j++
+			}
+			toks = append(toks, tsTok{"num", src[i:j], i, nl})
+			nl = false
+			i = j
+		default:
+			three := ""
+			if i+3 <= n {
+				three = src[i : i+3]
+			}
+			two := ""
+			if i+2 <= n {
+				two = src[i : i+2]
+			}
+			switch {
+			case three == "===" || three == "!==":
+				toks = append(toks, tsTok{"punct", three, i, nl})
+				i += 3
+			case two == "==" || two == "!=" || two == ">=" || two == "<=" || two == "&&" || two == "||" || two == "++" || two == "--" || two == "+=" || two == "-=" || two == "=>":
+				toks = append(toks, tsTok{"punct", two, i, nl})
+				i += 2
+			default:
+				toks = append(toks, tsTok{"punct", string(ch), i, nl})
+				i++
+			}
+			nl = false
+		}
+	}
+	return toks, nil
+}
+
+// tsBalance checks bracket nesting over the token stream.
+func tsBalance(toks []tsTok) string {
+	var stack []tsTok
+	pair := map[string]string{")": "(", "]": "[", "}": "{"}
+	for _, t := range toks {
+		if t.kind != "punct" {
+			continue
+		}
+		switch t.text {
+		case "(", "[", "{":
+			stack = append(stack, t)
+		case ")", "]", "}":
+			if len(stack) == 0 || stack[len(stack)-1].text != pair[t.text] {
+				return fmt.Sprintf("unbalanced %q at offset %d", t.text, t.pos)
+			}
+			stack = stack[:len(stack)-1]
+		}
+	}
+	if len(stack) > 0 {
+		return fmt.Sprintf("unclosed %q at offset %d", stack[len(stack)-1].text, stack[len(stack)-1].pos)
+	}
+	return ""
+}
+
+// matchClose returns the index of the bracket closing toks[i].
+func matchClose(toks []tsTok, i int) int {
+	open := toks[i].text
+	closeT := map[string]string{"(": ")", "[": "]", "{": "}"}[open]
+	depth := 0
+	for j := i; j < len(toks); j++ {
+		if toks[j].kind != "punct" {
+			continue
+		}
+		if toks[j].text == open {
+			depth++
+		} else if toks[j].text == closeT {
+			depth--
+			if depth == 0 {
+				return j
+			}
+		}
+	}
+	return -1
+}
+
+func (ts *TSStaged) findFuncs() {
+	toks := ts.Toks
+	for i := 0; i+2 < len(toks); i++ {
+		if toks[i].kind == "ident" && toks[i].text == "function" && toks[i+1].kind == "ident" && toks[i+2].text == "(" {
+			pc := matchClose(toks, i+2)
+			if pc < 0 {
+				continue
+			}
+			// skip return type up to the body's opening brace
+			j := pc + 1
+			for j < len(toks) && toks[j].text != "{" {
+				j++
+			}
+			if j >= len(toks) {
+				continue
+			}
+			bc := matchClose(toks, j)
+			if bc < 0 {
+				continue
+			}
+			f := &tsFunc{Name: toks[i+1].text, Params: toks[i+3 : pc], Toks: toks[j+1 : bc]}
+			p := &tsParser{toks: f.Toks}
+			f.Body = p.stmts()
+			if p.err != "" {
+				f.ParseE = p.err
+			}
+			ts.Funcs[f.Name] = f
+			i = j // nested functions are not used by the generator
+		}
+	}
+}
+
+type tsParser struct {
+	toks []tsTok
+	i    int
+	err  string
+}
+
+func (p *tsParser) peek() *tsTok {
+	if p.i < len(p.toks) {
+		return &p.toks[p.i]
+	}
+	return nil
+}
+
+func (p *tsParser) stmts() []*tsStmt {
+	var out []*tsStmt
+	for p.i < len(p.toks) && p.err == "" {
+		if p.toks[p.i].text == ";" {
+			p.i++
+			continue
+		}
+		s := p.stmt()
+		if s != nil {
+			out = append(out, s)
+		}
+	}
+	return out
+}
+
+func (p *tsParser) parenGroup() []tsTok {
+	if p.i >= len(p.toks) || p.toks[p.i].text != "(" {
+		p.err = "expected ("
+		return nil
+	}
+	c := matchClose(p.toks, p.i)
+	if c < 0 {
+		p.err = "unbalanced ("
+		return nil
+	}
+	g := p.toks[p.i+1 : c]
+	p.i = c + 1
+	return g
+}
+
+func (p *tsParser) blockOrStmt() []*tsStmt {
+	if p.i < len(p.toks) && p.toks[p.i].text == "{" {
+		c := matchClose(p.toks, p.i)
+		if c < 0 {
+			p.err = "unbalanced {"
+			return nil
+		}
+		sub := &tsParser{toks: p.toks[p.i+1 : c]}
+		body := sub.stmts()
+		if sub.err != "" {
+			p.err = sub.err
+		}
+		p.i = c + 1
+		return body
+	}
+	s := p.stmt()
+	if s == nil {
+		return nil
+	}
+	return []*tsStmt{s}
+}
+
+// exprEnd: index where the expression statement starting at p.i ends.
+func (p *tsParser) exprTokens() []tsTok {
+	start := p.i
+	depth := 0
+	for p.i < len(p.toks) {
+		t := p.toks[p.i]
+		if depth == 0 && p.i > start && t.nl {
+			break
+		}
+		if t.kind == "punct" {
+			switch t.text {
+			case "(", "[", "{":
+				depth++
+			case ")", "]", "}":
+				if depth == 0 {
+					return p.toks[start:p.i]
+				}
+				depth--
+			case ";":
+				if depth == 0 {
+					e := p.toks[start:p.i]
+					p.i++
+					return e
+				}
+			}
+		}
+		p.i++
+	}
+	return p.toks[start:p.i]
+}
+
+func (p *tsParser) stmt() *tsStmt {
+	t := p.toks[p.i]
+	if t.kind == "ident" {
+		switch t.text {
+		case "if":
+			p.i++
+			s := &tsStmt{Kind: "if", Cond: p.parenGroup()}
+			s.Then = p.blockOrStmt()
+			if p.i < len(p.toks) && p.toks[p.i].kind == "ident" && p.toks[p.i].text == "else" {
+				p.i++
+				s.Else = p.blockOrStmt()
+			}
+			return s
+		case "while":
+			p.i++
+			s := &tsStmt{Kind: "while", Cond: p.parenGroup()}
+			s.Then = p.blockOrStmt()
+			return s
+		case "switch":
+			p.i++
+			s := &tsStmt{Kind: "switch", Cond: p.parenGroup()}
+			if p.i >= len(p.toks) || p.toks[p.i].text != "{" {
+				p.err = "switch without body"
+				return s
+			}
+			c := matchClose(p.toks, p.i)
+			if c < 0 {
+				p.err = "unbalanced switch body"
+				return s
+			}
+			inner := p.toks[p.i+1 : c]
+			p.i = c + 1
+			// split on top-level `case` / `default`
+			depth := 0
+			var cur *tsStmt
+			startBody := 0
+			flush := func(end int) {
+				if cur != nil {
+					sub := &tsParser{toks: inner[startBody:end]}
+					cur.Then = sub.stmts()
+					if sub.err != "" {
+						p.err = sub.err
+					}
+					s.Cases = append(s.Cases, cur)
+				}
+			}
+			for k := 0; k < len(inner); k++ {
+				tk := inner[k]
+				if tk.kind == "punct" {
+					switch tk.text {
+					case "(", "[", "{":
+						depth++
+					case ")", "]", "}":
+						depth--
+					}
+				}
+				if depth == 0 && tk.kind == "ident" && (tk.text == "case" || tk.text == "default") {
+					flush(k)
+					cur = &tsStmt{Kind: "case"}
+					m := k + 1
+					for m < len(inner) && inner[m].text != ":" {
+						m++
+					}
+					cur.Cond = inner[k+1 : m]
+					startBody = m + 1
+					k = m
+				}
+			}
+			flush(len(inner))
+			return s
+		case "let", "var", "const":
+			p.i++
+			if p.i >= len(p.toks) {
+				p.err = "declaration without name"
+				return nil
+			}
+			s := &tsStmt{Kind: "let", Name: p.toks[p.i].text}
+			p.i++
+			rest := p.exprTokens()
+			// drop type annotation up to the top-level '='
+			depth := 0
+			for k, tk := range rest {
+				if tk.kind == "punct" {
+					switch tk.text {
+					case "(", "[", "{":
+						depth++
+					case ")", "]", "}":
+						depth--
+					case "=":
+						if depth == 0 {
+							s.Expr = rest[k+1:]
+							return s
+						}
+					}
+				}
+			}
+			return s
+		case "return":
+			p.i++
+			s := &tsStmt{Kind: "return"}
+			if p.i < len(p.toks) && !p.toks[p.i].nl && p.toks[p.i].text != "}" {
+				s.Expr = p.exprTokens()
+			}
+			return s
+		case "break":
+			p.i++
+			return &tsStmt{Kind: "break"}
+		case "continue":
+			p.i++
+			return &tsStmt{Kind: "continue"}
+		}
+	}
+	if t.text == "{" {
+		return &tsStmt{Kind: "block", Then: p.blockOrStmt()}
+	}
+	e := p.exprTokens()
+	if len(e) == 0 {
+		p.err = fmt.Sprintf("cannot parse statement at token %q", t.text)
+		p.i++
+		return nil
+	}
+	// assignment?
+	depth := 0
+	for k, tk := range e {
+		if tk.kind == "punct" {
+			switch tk.text {
+			case "(", "[", "{":
+				depth++
+			case ")", "]", "}":
+				depth--
+			case "=", "+=", "-=":
+				if depth == 0 {
+					return &tsStmt{Kind: "assign", Name: tsJoin(e[:k]), Op: tk.text, Expr: e[k+1:]}
+				}
+			case "++", "--":
+				if depth == 0 && k == len(e)-1 {
+					return &tsStmt{Kind: "assign", Name: tsJoin(e[:k]), Op: tk.text}
+				}
+			}
+		}
+	}
+	return &tsStmt{Kind: "expr", Expr: e}
+}
+
+func tsJoin(toks []tsTok) string {
+	var b strings.Builder
+	for i, t := range toks {
+		if i > 0 && (t.kind == "ident" || t.kind == "num") && (toks[i-1].kind == "ident" || toks[i-1].kind == "num") {
+			b.WriteByte(' ')
+		}
+		b.WriteString(t.text)
+	}
+	return b.String()
+}
+
+// tsCalls lists the called names in an expression, in source order ("new X" is reported as "new X").
+func tsCalls(toks []tsTok) []string {
+	var out []string
+	for i := 0; i < len(toks); i++ {
+		if toks[i].text != "(" || i == 0 {
+			continue
+		}
+		j := i - 1
+		if toks[j].kind != "ident" {
+			continue
+		}
+		name := toks[j].text
+		for j-2 >= 0 && toks[j-1].text == "." && toks[j-2].kind == "ident" {
+			name = toks[j-2].text + "." + name
+			j -= 2
+		}
+		if j-1 >= 0 && toks[j-1].kind == "ident" && toks[j-1].text == "new" {
+			name = "new " + name
+		}
+		out = append(out, name)
+	}
+	return out
+}
+
+// ---------------------------------------------------------------------------------------------
+// path enumeration over the TS statement tree (loop bodies are enumerated once, like the Go side)
+
+type tsCond struct {
+	Text string
+	Pol  bool
+}
+
+type tsPath struct {
+	Conds   []tsCond
+	Effects []string // "call f", "set x = e", "let x = e"
+	Kind    string   // fall return break continue
+	Val     string
+}
+
+func (p *tsPath) clone() *tsPath {
+	return &tsPath{Conds: append([]tsCond(nil), p.Conds...), Effects: append([]string(nil), p.Effects...), Kind: p.Kind, Val: p.Val}
+}
+
+func (p *tsPath) String() string {
+	var cs []string
+	for _, c := range p.Conds {
+		if c.Pol {
+			cs = append(cs, c.Text)
+		} else {
+			cs = append(cs, "!("+c.Text+")")
+		}
+	}
+	return "[" + strings.Join(cs, " && ") + "] {" + strings.Join(p.Effects, "; ") + "} " + p.Kind + " " + p.Val
+}
+
+func tsEnumerate(stmts []*tsStmt) []*tsPath {
+	live := []*tsPath{{Kind: "fall"}}
+	var done []*tsPath
+	for _, s := range stmts {
+		var next []*tsPath
+		for _, p := range live {
+			res := tsStep(s, p)
+			for _, q := range res {
+				if q.Kind == "fall" {
+					next = append(next, q)
+				} else {
+					done = append(done, q)
+				}
+			}
+		}
+		live = next
+	}
+	return append(done, live...)
+}
+
+func addCalls(p *tsPath, toks []tsTok) {
+	for _, c := range tsCalls(toks) {
+		p.Effects = append(p.Effects, "call "+c)
+	}
+}
+
+func tsStep(s *tsStmt, p *tsPath) []*tsPath {
+	switch s.Kind {
+	case "if":
+		t := p.clone()
+		addCalls(t, s.Cond)
+		e := t.clone()
+		t.Conds = append(t.Conds, tsCond{tsJoin(s.Cond), true})
+		e.Conds = append(e.Conds, tsCond{tsJoin(s.Cond), false})
+		var out []*tsPath
+		out = append(out, tsRun(s.Then, t)...)
+		if s.Else != nil {
+			out = append(out, tsRun(s.Else, e)...)
+		} else {
+			out = append(out, e)
+		}
+		return out
+	case "block":
+		return tsRun(s.Then, p.clone())
+	case "while":
+		q := p.clone()
+		q.Effects = append(q.Effects, "<loop>")
+		return []*tsPath{q}
+	case "switch":
+		q := p.clone()
+		q.Effects = append(q.Effects, "<switch "+tsJoin(s.Cond)+">")
+		return []*tsPath{q}
+	case "let":
+		q := p.clone()
+		addCalls(q, s.Expr)
+		q.Effects = append(q.Effects, "let "+s.Name+" = "+tsJoin(s.Expr))
+		return []*tsPath{q}
+	case "assign":
+		q := p.clone()
+		addCalls(q, s.Expr)
+		q.Effects = append(q.Effects, "set "+s.Name+" "+s.Op+" "+tsJoin(s.Expr))
+		return []*tsPath{q}
+	case "expr":
+		q := p.clone()
+		addCalls(q, s.Expr)
+		return []*tsPath{q}
+	case "return":
+		q := p.clone()
+		addCalls(q, s.Expr)
+		q.Kind = "return"
+		q.Val = tsJoin(s.Expr)
+		return []*tsPath{q}
+	case "break", "continue":
+		q := p.clone()
+		q.Kind = s.Kind
+		return []*tsPath{q}
+	}
+	return []*tsPath{p.clone()}
+}
+
+func tsRun(stmts []*tsStmt, p *tsPath) []*tsPath {
+	live := []*tsPath{p}
+	var done []*tsPath
+	for _, s := range stmts {
+		var next []*tsPath
+		for _, q := range live {
+			for _, r := range tsStep(s, q) {
+				if r.Kind == "fall" {
+					next = append(next, r)
+				} else {
+					done = append(done, r)
+				}
+			}
+		}
+		live = next
+	}
+	return append(done, live...)
+}
+
+// tsDriver returns the statements of the while loop of function Parser and the statements after it.
+func (ts *TSStaged) tsDriver() (loop *tsStmt, before, after []*tsStmt, err string) {
+	f := ts.Funcs["Parser"]
+	if f == nil {
+		return nil, nil, nil, "the TypeScript output has no `function Parser`"
+	}
+	if f.ParseE != "" {
+		return nil, nil, nil, "cannot parse function Parser: " + f.ParseE
+	}
+	for i, s := range f.Body {
+		if s.Kind == "while" {
+			return s, f.Body[:i], f.Body[i+1:], ""
+		}
+	}
+	return nil, nil, nil, "function Parser has no while loop"
+}
+
+var _ = types.Typ
